@@ -58,17 +58,29 @@ REAL_REJECTS = [   # on real classes, with the overload sets of the working tree
 ]
 
 
+def _with_warnings(rng, qml, line):
+    """valid handlers that raise a *warning* ('return type is ignored'), visited after the refused one: on a later object
+    (post-order walk) and, sometimes, on the same object (hash order)"""
+    if rng.chance(0.6):
+        qml = qml.replace("onFired: w1.reset() }", "onFired: function(): void { w1.reset() } }").replace("onFired: w2.reset() }", "onFired: function(): void { w2.reset() } }")
+    if rng.chance(0.35) and "SimWidget {\n            id: w1" in qml:
+        extra = "onTuned: function(a: int): void { w2.reset() }" if "onFired" in line else "onFired: function(): void { w2.reset() }"
+        if extra.split(":")[0] not in line:
+            qml = qml.replace("            id: w1\n", "            id: w1\n            %s\n" % extra, 1)
+    return qml
+
+
 def gen_case(rng, params, index):
     if rng.chance(0.12):
         if rng.chance(0.3):
             kind, cls, line = rng.choice(REAL_REJECTS)
             qml = ("import qmluic.QtWidgets\nQWidget {\n    id: root\n    QVBoxLayout {\n        %s {\n            id: r1\n            %s\n        }\n"
                    "        SimWidget { id: w2; onFired: w2.reset() }\n    }\n}\n" % (cls, line))
-            return {"kind": "rejection", "shape": kind, "qml": qml, "type_name": "Doc", "doc_first": rng.chance(0.5)}
+            return {"kind": "rejection", "shape": kind, "qml": _with_warnings(rng, qml, line), "type_name": "Doc", "doc_first": rng.chance(0.5)}
         kind, line = rng.choice(REJECTS)
         qml = ("import qmluic.QtWidgets\nQWidget {\n    id: root\n    QVBoxLayout {\n        SimWidget {\n            id: w1\n            %s\n        }\n"
                "        SimWidget { id: w2; onFired: w1.reset() }\n    }\n}\n" % line)
-        return {"kind": "rejection", "shape": kind, "qml": qml, "type_name": "Doc", "doc_first": rng.chance(0.5)}
+        return {"kind": "rejection", "shape": kind, "qml": _with_warnings(rng, qml, line), "type_name": "Doc", "doc_first": rng.chance(0.5)}
     return qtcheck.gen_doc_case(rng, "handlers", params["histories"], rng.randint(max(8, params["events"] // 3), params["events"]),
                                 doc_kwargs={"handler_p": 0.85, "max_handlers": 3, "n_bindings": rng.randint(2, 9) if rng.chance(0.8) else 0})   # 0: a document with handlers only
 
